@@ -296,7 +296,7 @@ func (t *itr) exprAs(e ast.Expr, c cat) string {
 		}
 	}
 	x, xc := t.expr(e)
-	if xc != c && xc != cUnknown && !(xc == cBig && c == cBig) {
+	if xc != c && xc != cUnknown && !(xc == cBig && c == cBig) && !(xc == cLoop && c == cLoopPtr) {
 		return t.fail("expression %s has category %s, want %s", exprString(e), leanOf(xc), leanOf(c))
 	}
 	return x
@@ -627,6 +627,16 @@ func (t *itr) assign(s *ast.AssignStmt) {
 		}
 		t.assignVar(l, rhs)
 	case *ast.SelectorExpr:
+		if v := t.env.vars[identName(l.X)]; v != nil && v.cat == cLoop {
+			f, ok := loopFields[l.Sel.Name]
+			if !ok || f.cat == cDec || f.cat == cCtx {
+				t.fail("assignment to %s", exprString(l))
+				return
+			}
+			name := identName(l.X)
+			t.define(name, cLoop, vVal, fmt.Sprintf("{ %s with %s := %s }", name, f.lean, t.exprAs(rhs, f.cat)))
+			return
+		}
 		if c := t.catOf(l.X); c == cED || c == cEDPtr {
 			f, ok := edFields[l.Sel.Name]
 			if !ok {
